@@ -119,6 +119,34 @@ def table():
         print('| %s | %s | %s | %s |' % (seed, meta.get('property', seed[:3]), need.replace('|', '/'), cell.replace('|', '/')))
 
 
+def compact():
+    """one row per property, one cell per change: the first failing clause of the property's own check (prefixed with the
+    check's id when a neighbouring property's check is the one that reports it)"""
+    results = json.load(open(os.path.join(SEEDED, 'RESULTS.json')))
+    letters = sorted({k[4] for k in results})
+    print('| property | ' + ' | '.join(letters) + ' |')
+    print('|---|' + '---|' * len(letters))
+    for n in range(1, 21):
+        pid = 'C%02d' % n
+        cells = []
+        for x in letters:
+            r = results.get('%s_%s' % (pid, x))
+            if not r:
+                cells.append('')
+                continue
+            got = [(c, v) for c, v in sorted(r['checks'].items()) if v['rc'] == 1]
+            if not got:
+                cells.append('**missed**')
+                continue
+            own = [(c, v) for c, v in got if c == pid]
+            c, v = (own or got)[0]
+            cl = (v['clause'] or '').replace('|', '/')
+            if len(cl) > 58:
+                cl = cl[:55] + '...'
+            cells.append(('' if c == pid else c + ': ') + '`' + cl + '`')
+        print('| %s | %s |' % (pid, ' | '.join(cells)))
+
+
 if __name__ == '__main__':
     a = sys.argv[1:]
     if a and a[0] == 'store':
@@ -136,5 +164,7 @@ if __name__ == '__main__':
         run(seeds, jobs, also)
     elif a and a[0] == 'table':
         table()
+    elif a and a[0] == 'compact':
+        compact()
     else:
         print(__doc__)
